@@ -189,6 +189,7 @@ def plan(tier, seed):
     sh = []
     sh.append(['foreign'])
     for logic in LOGICS:
+        sh.append(['glued', logic])
         sh.append(['edited', logic])
         sh.append(['small', logic])
         for i in range(4):
@@ -199,6 +200,45 @@ def plan(tier, seed):
         for b in blocks:
             sh.append(['size3', logic, b])
     return sh
+
+
+def glued_pairs(x, y, z):
+    """Pairs of different trees whose printed forms differ only in blanks between words: a reserved word
+    followed by a name against the atom spelled by gluing them."""
+    ap = lambda n: ('ap', n)
+    return [(('not', ap(x)), ap('not' + x)),
+            (('not', ('not', ap(x))), ('not', ap('not' + x))),
+            (('or', ap(x), ap(y), ap(z)), ('or', ap(x + 'or' + y), ap(z))),
+            (('and', ap(x), ap(y), ap(z)), ('and', ap(x), ap(y + 'and' + z))),
+            (('or', ('not', ap(x)), ap(y)), ('or', ap('not' + x), ap(y))),
+            (('imp', ('not', ap(x)), ('not', ap(y))), ('imp', ap('not' + x), ap('not' + y)))]
+
+
+def glued(logic, acc):
+    """Parser()(str(f)) for both members of every glued pair, one after the other in the same process, in
+    both orders (fresh atom names per order so that neither text was parsed before), each parse by a
+    freshly built Parser() as the statement has it and once more by a shared one."""
+    L = lib.LANGS[logic]
+    wrap = (lambda t: ('A', t)) if logic == 'LTL' else (lambda t: t)
+    for names, flip in ((('a', 'b', 'c'), False), (('d', 'e', 'f'), True), (('p', 'q', 'r'), False)):
+        for t1, t2 in glued_pairs(*names):
+            seq = [wrap(t2), wrap(t1)] if flip else [wrap(t1), wrap(t2)]
+            for fresh in (True, False):
+                for t in seq + seq:
+                    acc.ev(1, 1)
+                    obj = lib.build(t, L)
+                    text = str(obj.cast_to(lib.CTLS)) if logic == 'CTL' else str(obj)
+                    case = {'logic': logic, 'tree': spaces.to_jsonable(t), 'tree_str': spaces.fstr(t),
+                            'printed': text, 'sequence': [spaces.fstr(x) for x in seq], 'fresh_parser': fresh}
+                    P = L.Parser() if fresh else parser(logic)
+                    rp = call(P, text)
+                    if rp[0] != 'ok':
+                        acc.violation('printed-form-rejected', case, 'formula', rp[1:])
+                        continue
+                    rr = call(lib.read, rp[1])
+                    if rr[0] != 'ok' or rr[1] != t:
+                        acc.violation('roundtrip-differs', case, spaces.fstr(t),
+                                      spaces.fstr(rr[1]) if rr[0] == 'ok' else rr[1:])
 
 
 def roundtrip(logic, t, acc, printed):
@@ -244,6 +284,9 @@ def run_shard(shard, tier, seed, acc):
         return
     if shard[0] == 'edited':
         edited_print(shard[1], acc)
+        return
+    if shard[0] == 'glued':
+        glued(shard[1], acc)
         return
     kind, logic = shard[0], shard[1]
     printed = {}
@@ -307,6 +350,9 @@ def replay(art):
     acc = Acc()
     printed = {}
     t = spaces.from_jsonable(c['tree'])
+    if 'sequence' in c:
+        glued(c['logic'], acc)
+        return {'violates': acc.d['nviol'] > 0, 'detail': acc.d['violations'][:1]}
     if 'history' in c:
         if 'Parser(language' in c['history']:
             foreign_language_parsers(acc)
